@@ -142,6 +142,7 @@ Audit [grp="g1"]:
 Notify [grp="g2"]:
     Push:
         Audit <- Log
+        Store <- Save
 Proj:
     view [exclude=["Notify"], passthrough=["Store"]]:
         Shop
